@@ -254,9 +254,9 @@ pub fn %(name)s() {
     return {
         "harnesses": hs,
         "groups": {"main": {"features": ["c10"], "timeout_s": 2400},
-                   "rows": {"features": ["c10"], "timeout_s": 2400},
-                   "err": {"features": ["c10"], "timeout_s": 2400},
-                   "masks": {"features": ["c10"], "timeout_s": 3000}},
+                   "rows": {"features": ["c10"], "est_gb": 5, "timeout_s": 2400},
+                   "err": {"features": ["c10"], "est_gb": 5, "timeout_s": 2400},
+                   "masks": {"features": ["c10"], "est_gb": 6, "timeout_s": 3000}},
         "level": "model_checking",
         "functions": ["msg::{mask_len_u32,mask_len_u64,mask_to_id_vec_u32,mask_to_id_vec_u64,cell_mask_id_vec}", "msgNNNN_data::{encode,decode} (msm_data_seg_frag) for all 49 MSM types",
                       "msm_sat_frag / msm_sig_frag encode (sort_unstable_by comparators, column-wise row order) and decode"],
